@@ -320,6 +320,10 @@ impl<'a, F: Float, K: 'a + Permutable<F>> SolverState<'a, F, K> {
         let old_alpha_i = self.alpha[i].val();
         let old_alpha_j = self.alpha[j].val();
 
+        // status before the update, needed to maintain the cached gradient
+        let ui = self.alpha[i].reached_upper();
+        let uj = self.alpha[j].reached_upper();
+
         if self.targets[i] != self.targets[j] {
             let mut quad_coef = self.kernel.self_distance(i)
                 + self.kernel.self_distance(j)
@@ -411,9 +415,6 @@ impl<'a, F: Float, K: 'a + Permutable<F>> SolverState<'a, F, K> {
         }
 
         // update alpha status and gradient bar
-        let ui = self.alpha[i].reached_upper();
-        let uj = self.alpha[j].reached_upper();
-
         self.alpha[i] = Alpha::from(self.alpha[i].val(), self.bound(i));
         self.alpha[j] = Alpha::from(self.alpha[j].val(), self.bound(j));
 
@@ -437,11 +438,11 @@ impl<'a, F: Float, K: 'a + Permutable<F>> SolverState<'a, F, K> {
             let dist_j = self.kernel.distances(j, self.ntotal());
             let bound_j = self.bound(j);
             if uj {
-                for k in 0..self.nactive() {
+                for k in 0..self.ntotal() {
                     self.gradient_fixed[k] -= bound_j * dist_j[k];
                 }
             } else {
-                for k in 0..self.nactive() {
+                for k in 0..self.ntotal() {
                     self.gradient_fixed[k] += bound_j * dist_j[k];
                 }
             }
